@@ -38,7 +38,7 @@ def h_policy(ctx, set_metadata, schema, existing, nrows, var_none=False):
     rows = mdstub.written_rows(table)
     ops = [k for k, _ in log]
     # with no rows nothing is validated, so any schema "can encode"
-    can_encode = schema == "permissive" or (schema is not None and nrows == 0)
+    can_encode = schema in ("permissive", "time_only") or (schema is not None and nrows == 0)
     has_md = ex is not None and nrows > 0
     has_schema = schema is not None
     if self.set_metadata is False or var_none:
@@ -177,7 +177,7 @@ def cases(tier):
                                    dict(set_metadata=sm, node_schema=ns, mut_schema=ms,
                                         node_existing=ne, mut_existing=me)))
     for sm in ("False", "None", "True"):
-        for schema in (None, "permissive", "restrictive", "struct_bad"):
+        for schema in (None, "permissive", "time_only", "restrictive", "struct_bad"):
             for existing in (None, "other_keys", "empty_dicts"):
                 for nrows in ((0, 2) if tier == "quick" else (0, 1, 3)):
                     if schema is None and existing == "other_keys":
@@ -237,6 +237,10 @@ def replay(payload):
     schema = kw["schema"]
     if schema == "permissive":
         t.nodes.metadata_schema = tskit.MetadataSchema.permissive_json()
+    elif schema == "time_only":
+        t.nodes.metadata_schema = tskit.MetadataSchema(
+            {"codec": "json", "type": "object",
+             "properties": {"mn": {"type": "number"}, "vr": {"type": "number"}}})
     elif schema == "restrictive":
         t.nodes.metadata_schema = tskit.MetadataSchema(
             {"codec": "json", "type": "object", "properties": {"name": {"type": "string"}},
@@ -256,7 +260,7 @@ def replay(payload):
     out = tsdate.date(ts2, mutation_rate=1.0, set_metadata=sm)
     nm = out.tables.nodes
     before = ts2.tables.nodes
-    can = schema == "permissive" or (schema is None and kw["existing"] != "other_keys")
+    can = schema in ("permissive", "time_only") or (schema is None and kw["existing"] != "other_keys")
     if sm is False:
         bad = nm.metadata.tobytes() != before.metadata.tobytes() or \
             nm.metadata_schema != before.metadata_schema
@@ -267,6 +271,10 @@ def replay(payload):
                       for u in range(out.num_nodes))
     except Exception:
         written = False
+    if can and written and kw["existing"] == "other_keys":
+        lost = [u for u in range(out.num_nodes) if out.node(u).metadata.get("name") != "abcd"]
+        if lost:
+            return True, f"other metadata fields lost on nodes {lost[:5]}"
     if sm is True or can:
         return (not written), f"mn/vr written={written} (expected True)"
     untouched = nm.metadata.tobytes() == before.metadata.tobytes() and \
